@@ -52,6 +52,9 @@ class StreamableHTTPTransport(Transport):
         self._outgoing_task: Optional[asyncio.Task] = None
         self._request_semaphore = asyncio.Semaphore(self.max_concurrent_requests)
 
+        # Number of messages handed to the read stream / pending futures so far
+        self._routed_count = 0
+
         # Memory streams for chuk_mcp message API
         self._incoming_send: Optional[MemoryObjectSendStream] = None
         self._incoming_recv: Optional[MemoryObjectReceiveStream] = None
@@ -128,7 +131,25 @@ class StreamableHTTPTransport(Transport):
         """Send a message via HTTP POST with streamable response handling."""
         # Use semaphore to limit concurrent requests
         async with self._request_semaphore:
+            routed_before = self._routed_count
             await self._send_message_internal(message)
+
+            # A request must always end with one terminal message on the read
+            # stream; if the server's answer contained none, report that.
+            message_id = getattr(message, "id", None)
+            if isinstance(message, dict):
+                message_id = message.get("id")
+            if message_id is not None and self._routed_count == routed_before:
+                await self._route_response(
+                    {
+                        "jsonrpc": "2.0",
+                        "id": message_id,
+                        "error": {
+                            "code": -32603,
+                            "message": "No JSON-RPC response in HTTP reply",
+                        },
+                    }
+                )
 
     async def _send_message_internal(self, message) -> None:
         """Internal message sending with proper SSE handling."""
@@ -454,12 +475,14 @@ class StreamableHTTPTransport(Transport):
                     future = self._pending_requests.pop(message_id)
                     if not future.done():
                         future.set_result(response_data)
+                        self._routed_count += 1
                         logger.debug(f"Completed pending request {message_id}")
                         return
 
             # Otherwise route to incoming stream
             if self._incoming_send:
                 await self._incoming_send.send(message)
+                self._routed_count += 1
                 logger.debug(
                     f"Routed message to incoming stream: {message.method or 'response'}"
                 )
